@@ -2,4 +2,6 @@ import GoframeModel.Props.C01
 #print axioms Goframe.C01.nrows_any_column
 #print axioms Goframe.C01.step_good
 #print axioms Goframe.C01.reach_good
+#print axioms Goframe.C01.csv_import_good
+#print axioms Goframe.C01.sql_import_good
 #print axioms Goframe.C01.appendRow_pinned_ragged
